@@ -59,6 +59,11 @@ def make_inputs(r, scratch, k):
             p = os.path.join(scratch, "in%d.gtf" % i)
         dbside.write_lines(p, lines)
         paths.append(p)
+    # a GTF without any exon line (nothing to infer): the intermediate file must still be removed
+    p = os.path.join(scratch, "in_cdsonly.gtf")
+    dbside.write_lines(p, [gen_db.gtf_line("chr1", "CDS", 10 + 50 * i, 40 + 50 * i, "+", [("gene_id", ["G"]), ("transcript_id", ["T%d" % (i % 2)])])
+                           for i in range(6)])
+    paths.append(p)
     return paths
 
 
@@ -137,6 +142,7 @@ def run(ctx):
     # (i) trace conformance
     trace_conformance(ctx, res, inputs[0], "gff3")
     trace_conformance(ctx, res, inputs[1], "gtf")
+    trace_conformance(ctx, res, inputs[-1], "gtf_without_exons")
     # solitary runs
     solo = {}
     for i, p in enumerate(inputs):
@@ -178,6 +184,64 @@ def run(ctx):
                                             {"processes": n, "left": left}))
                 for f in left:
                     os.unlink(os.path.join(shared, f))
+    # workers FORKED from this process (gffutils already imported here): module-level state is inherited by the children
+    import tempfile
+    import gffutils
+
+    def forked_import(args):
+        path, out, delay = args
+        import time as _t
+        _t.sleep(delay)
+        tempfile.tempdir = shared
+        os.environ["TMPDIR"] = shared
+        import warnings as _w
+        _w.simplefilter("ignore")
+        try:
+            d = gffutils.create_db(path, out, force=True, merge_strategy="create_unique")
+            d.conn.commit()
+            return dbside.dump(gffutils.FeatureDB(out))
+        except Exception as ex:
+            return "raised %r" % ex
+    try:
+        fctx = multiprocessing.get_context("fork")
+    except ValueError:
+        fctx = None
+    if fctx is not None:
+        old_td = tempfile.tempdir
+        for rd in range(1 if not ctx.thorough else 4):
+            n = min(ncpu, 8)
+            jobs = [(inputs[(j + rd) % len(inputs)], os.path.join(ctx.scratch, "fork_%d_%d.db" % (rd, j)), r.choice([0, 0, 0.005]))
+                    for j in range(n)]
+            def child(job):
+                so_ = forked_import(job)
+                with open(job[1] + ".dump", "w") as fh_:
+                    fh_.write(so_)
+            procs_ = [fctx.Process(target=child, args=(job,)) for job in jobs]
+            for p__ in procs_:
+                p__.start()
+            for p__ in procs_:
+                p__.join(600)
+            outs = []
+            for job in jobs:
+                try:
+                    outs.append(open(job[1] + ".dump").read())
+                except OSError:
+                    outs.append("worker died")
+            for (p_, out_, _), so in zip(jobs, outs):
+                res.evaluations += 1
+                res.nontriv(("fork", rd, out_))
+                if so != solo[p_]:
+                    res.oracle_failures.append(("an import in a forked worker differs from the solitary run",
+                                                {"input": p_, "workers": n, "result": so[:200]}))
+            left = os.listdir(shared)
+            res.count("forked_workers_%d" % n)
+            if left:
+                res.oracle_failures.append(("intermediate files left in the shared temp directory after forked imports finished",
+                                            {"workers": n, "left": left}))
+                for f in left:
+                    os.unlink(os.path.join(shared, f))
+        tempfile.tempdir = old_td
+        os.environ["TMPDIR"] = ctx.scratch
     # concurrent readers
     for k in ([2, 6] if not ctx.thorough else [2, 8, ncpu, 2 * ncpu]):
         target = os.path.join(ctx.scratch, "solo0.db")
